@@ -397,7 +397,7 @@ def run(tier):
     ck = Check("C06", tier)
     ck.encode(CxxParser.parse, CxxParser.__init__, CxxParser._parse_error, PlyLexer._error, PlyLexer.t_error, plylex.Lexer.token)
     alpha = reduced_alphabet()
-    nfull, ncore = (2, 3) if tier == "quick" else (3, 4)
+    nfull, ncore = (2, 3) if tier == "quick" else (3, 3)
     ck.bounds = dict(reduced_alphabet=alpha, full_alphabet_tokens=nfull, core_alphabet=CORE, core_tokens=ncore, contexts=[c[0] for c in CONTEXTS], breakers=[b[0] for b in BREAKERS])
     ck.assume("token sequences are rendered with a blank or newline between tokens, file name 'dir/in put.h'",
               "error rules whose message formatting makes CrossHair fork per text are also run with an opaque text object that can only be formatted (parametricity: the rule then cannot depend on the text)",
